@@ -38,16 +38,60 @@ def genuine(text, tok, extractors):
     return False
 
 
+_CUSTOM = {}
+
+
+def custom_pair(which):
+    """a reference tokenizer and a Hyperscan tokenizer over the same CUSTOM extractor list (the documented
+    `extractors=` configuration).  0: a sample of the default extractors in reversed order; 1: synthetic extractors
+    whose patterns contain multi-byte characters the default list does not use (optional ones, classes, literals),
+    case-insensitive and case-sensitive, next to the special default extractors.  Only what the pattern conversion of the
+    tokenizer covers: multi-byte characters as literals, in alternations and as OPTIONAL characters ("x?") -- a character
+    class that contains a multi-byte character is a byte class for Hyperscan and outside the property."""
+    if which not in _CUSTOM:
+        import re
+        from eyecite.models import CitationToken, TokenExtractor
+        from eyecite.tokenizers import EXTRACTORS, HyperscanTokenizer, Tokenizer
+        if which == 0:
+            L = list(reversed(small_extractors()))
+        else:
+            def ext(rx, flags=0):
+                return TokenExtractor(rx, CitationToken.from_match, {"exact_editions": [], "variation_editions": [], "short": False},
+                                      flags=flags, strings=[])
+            L = [ext(r"(B\.O\.E\. n\.?º? ?(?P<page>\d+))"), ext(r"((?P<volume>\d+) Nº ?(?P<page>\d+))"),
+                 ext(r"(№ ?(?P<page>\d+)°?)"), ext(r"((?P<volume>\d+) d(?:é|e)cret ?(?P<page>\d+))", re.I),
+                 ext(r"(Rép\.? (?P<page>\d{1,4})ᵉ?)")] + EXTRACTORS[-5:]
+        _CUSTOM[which] = (L, Tokenizer(extractors=L), HyperscanTokenizer(extractors=L))
+    return _CUSTOM[which]
+
+
 def run_cands(payload):
     from eyecite import get_citations
     from eyecite.tokenizers import Tokenizer
     import drv_purity
-    ref = Tokenizer()
-    hs = hs_tokenizer()
     res = []
+    # (the harness puts the custom-list items first in every chunk: a tokenizer over another extractor list has then
+    # been built and used in the process before the default Hyperscan tokenizer is)
+    ref = Tokenizer()
+    hs = None
     for it in payload["items"]:
         text = it["text"]
         o = {"text": text, "raised": "", "ref": [], "hs": [], "extra_genuine": [], "ties": False, "cit_equal": True}
+        if it.get("custom") is not None:
+            try:
+                L, cref, chs = custom_pair(it["custom"])
+                rt = list(cref.extract_tokens(text))
+                ht = list(chs.extract_tokens(text))
+                o["ref"] = sorted(cand_repr(t) for t in rt)
+                o["hs"] = sorted(cand_repr(t) for t in ht)
+                refset = set(o["ref"])
+                o["extra_genuine"] = [genuine(text, t, L) for t in ht if cand_repr(t) not in refset]
+            except Exception as ex:  # noqa: BLE001
+                o["raised"] = f"{type(ex).__name__}: {ex}"[:300]
+            res.append(o)
+            continue
+        if hs is None:
+            hs = hs_tokenizer()
         try:
             rt = list(ref.extract_tokens(text))
             ht = list(hs.extract_tokens(text))
@@ -65,6 +109,16 @@ def run_cands(payload):
                 a = drv_purity.ser(get_citations(text, tokenizer=ref))
                 b = drv_purity.ser(get_citations(text, tokenizer=hs))
                 o["cit_equal"] = a == b
+            else:
+                get_citations(text, tokenizer=hs)
+            # the SAME tokenizer instance on the same text again (after its tokens were used by get_citations): if the
+            # candidates differ now, the second call is the one that is judged
+            ht2 = list(hs.extract_tokens(text))
+            hs2 = sorted(cand_repr(t) for t in ht2)
+            if hs2 != o["hs"]:
+                o["hs"] = hs2
+                o["extra_genuine"] = [genuine(text, t, hs.extractors) for t in ht2 if cand_repr(t) not in refset]
+                o["second_call"] = True
         except Exception as ex:  # noqa: BLE001
             o["raised"] = f"{type(ex).__name__}: {ex}"[:300]
         res.append(o)
